@@ -1,6 +1,10 @@
 """C01: all simulator backends compute the same physics"""
 from . import phase_harness as PH
+from . import fock_harness as FH
 
 
 def build(ctx):
     PH.jobs(ctx, "ref")
+    FH.jobs(ctx)
+    from . import fockgates as FG
+    FG.jobs(ctx)
